@@ -114,6 +114,27 @@ pub fn check_c20_srv(case: &C20Srv) -> CaseResult {
             ));
         }
     }
+    // the same with a transport that accepts a reply in pieces (back-pressure): what is logged
+    // about a write must not change what is written
+    {
+        let stalled = SrvOptions {
+            select_seed: case.base.select_seed,
+            write_stall: Some((1 + (case.base.select_seed as usize) % 40, 1 + case.base.select_seed % 3)),
+            ..Default::default()
+        };
+        let b = run_server(&with_level(Decode::NOTHING), &plain_steps, &stalled);
+        for level in [Decode::MAX, case.random_level] {
+            let run = run_server(&with_level(level), &plain_steps, &stalled);
+            if observe_srv(&run) != observe_srv(&b) {
+                return Err(format!(
+                    "server session at decode level {:?} behaves differently from level nothing when the transport accepts replies in pieces: {}",
+                    level,
+                    diff_srv(&b, &run)
+                ));
+            }
+        }
+        ok.label("static_levels_under_backpressure");
+    }
     for (name, from, to) in [
         ("nothing -> generated level", Decode::NOTHING, case.new_level),
         ("generated level -> generated level", case.random_level, case.new_level),
@@ -240,6 +261,27 @@ pub fn check_c20_cli(case: &C20Cli) -> CaseResult {
                 diff_cli(&base, &obs)
             ));
         }
+    }
+    // static levels once more over a transport that accepts requests in pieces
+    {
+        let mut stalled = plain.clone();
+        if let Some(conn) = stalled.conns.first_mut() {
+            conn.write_stall = Some((1 + (case.base.select_seed % 40) as u32, 1 + (case.base.select_seed % 3) as u32));
+        }
+        let b = observe_cli(&run_client(&stalled));
+        for level in [Decode::MAX, case.random_level] {
+            let mut c = stalled.clone();
+            c.cfg.decode = level;
+            let obs = observe_cli(&run_client(&c));
+            if obs != b {
+                return Err(format!(
+                    "client at decode level {:?} behaves differently from level nothing when the transport accepts requests in pieces: {}",
+                    level,
+                    diff_cli(&b, &obs)
+                ));
+            }
+        }
+        ok.label("static_levels_under_backpressure");
     }
     for (name, from, to) in [
         ("nothing -> generated level", Decode::NOTHING, case.new_level),
